@@ -105,9 +105,24 @@ def cases(tier):
         spec = model(shape, dt, data, yf, myf, lim, prog, scen)
         if spec is not None:
             yield spec
+    # "initial-size data are scaled by calibration factors in the same way": the initialisation cases of C07 that carry a calibration
+    # factor (on a compartment, on a characteristic, on the denominator of a fraction, on the fraction itself) with consistent data
+    from mc.props import c07
+
+    for c in c07.cases(tier):
+        if c["yf"] != 1.0 and c["data"] == "ok" and not c.get("t2"):
+            yield dict(c06_init=c)
 
 
 def run_case(spec):
+    if "c06_init" in spec:
+        from mc.props import c07
+
+        res = c07.run_case(spec["c06_init"])
+        for v in res["violations"]:
+            v["key"] = "initial-size-calibration:" + v["key"]
+        res["counters"] = {"initial_size_cases": 1}
+        return res
     w, r = run_spec(spec)
     tr = refsim.simulate(spec)
     vs = conform.compare(tr, r, what=("t", "par", "comp", "link", "charac"))
